@@ -31,15 +31,19 @@ import (
 func TestMain(m *testing.M) {
 	gen.Quiet()
 	ev.MustHit("replacement-accepted", "replacement-rejected", "evicted-by-limit", "reorg-reinjection-checked", "demoted-after-balance-drop", "local-exempt",
-		"mined-subset", "reorg", "gap-queued", "external-tx-under-queued-run", "external-tx-under-pending-run", "mined-offered-unpooled", "tiny-limits", "default-limits", "concurrent-run")
+		"mined-subset", "reorg", "gap-queued", "external-tx-under-queued-run", "external-tx-under-pending-run", "mined-offered-unpooled", "tiny-limits", "default-limits", "concurrent-run",
+		"reorg-to-lower-head", "reinjection-checked-after-reorg-to-lower-head", "balance-into-replacement-window", "gas-limit-into-replacement-window")
 	ev.Main(m, ev.Config{
 		Property: "C15",
 		Level:    "exploration",
-		Rule: "rapid state machine on a real BlockChain (fake PoW) behind a wrapper that owns the chain-head feed, so that the harness knows when the pool has finished a reset: actions AddLocal/AddRemote/AddRemotes of generated transactions (nonce in [stateNonce-1, pendingNonce+3], prices around the bump threshold of an existing same-nonce transaction, values around a poor sender's balance, duplicates), SetGasPrice, mining a generated subset of Pending(), reorganisation to a heavier sibling branch holding a different subset, draining a sender's balance, mining transactions of a pool sender that never passed through the pool, mining offered transactions whether or not the pool kept them; pool limits default or tiny, price bump 1/10/100. " +
+		Rule: "rapid state machine on a real BlockChain (fake PoW) behind a wrapper that owns the chain-head feed, so that the harness knows when the pool has finished a reset: actions AddLocal/AddRemote/AddRemotes of generated transactions (nonce in [stateNonce-1, pendingNonce+3], prices around the bump threshold of an existing same-nonce transaction, values around the balance of a poor or drained sender, gas 21000..100000 or in the band the block gas limit decays through within the next 0-3 blocks, duplicates), same-nonce replacements at prices around the bump threshold that keep or raise gas (up to that band) and value (up to what meets the balance), SetGasPrice, mining a generated subset of Pending(), reorganisation of the last 1-8 blocks to a strictly heavier sibling branch of fast blocks holding a different subset - the sibling is as long as it takes to out-weigh the old branch plus 0-2 blocks, so the new head is lower than, level with or higher than the old one depending on the history's block pace (13 s or 3000 s with jitter) and difficulty rule -, a spend made elsewhere that leaves any sender with nothing, little, or exactly / one wei short of the cost of one of its pooled transactions, mining transactions of a pool sender that never passed through the pool, mining offered transactions whether or not the pool kept them; a history may begin with 0-8 blocks (some with a transfer of a pool sender) mined before the first submission; pool limits default or tiny, price bump 1/10/100. " +
+			"A second leg runs the same machine on the sub-domain steep difficulty / slow canonical branch / default limits, where a lower new head is reachable (5+ slow blocks are out-weighed by fewer fast ones) and re-injection is judged. After every head change the harness measures (labels) which previously pooled transactions the new balances and gas limit no longer cover and whether such a transaction had replaced a cheaper one that would still be covered. " +
 			"Plus a concurrent leg (6 submitting goroutines + a head-advancing goroutine, built with -race). non-trivial = a history with a gap-creating event (mined subset, reorg or balance drain); distinct by hash of the action list",
 		Assumptions: []string{
 			"affordability is per transaction (cost <= balance), as the statement says, not cumulative",
-			"re-injection after a reorganisation is demanded only for transactions that pass the pool's own admission rule at the new head (nonce >= state nonce, affordable, gas <= limit, price >= pool price for non-locals) and only while the configured limits are not saturated",
+			"re-injection after a reorganisation is demanded only for transactions that pass the pool's own admission rule at the new head (nonce >= state nonce, affordable, gas <= limit, price >= pool price for non-locals) and only while the configured limits are not saturated (never under the tiny limits); it is demanded whatever the height of the new head relative to the old one",
+			"the block gas limit a pending transaction must fit is the limit of the head block (what the pool is told), read from the chain",
+			"a sibling branch counts as the new head only when its total difficulty is strictly greater (at equal total difficulty and height the chain tosses a coin)",
 			"pool resets are observed through the chain wrapper (StateAt call under the pool lock followed by a pool read), no sleeps",
 		},
 	})
@@ -90,6 +94,19 @@ type world struct {
 	// sureLocals: accounts the pool certainly treats as local (an accepted AddLocal that was
 	// not a same-nonce replacement: TxPool.add returns before marking the account otherwise)
 	sureLocals map[common.Address]bool
+	// pace: seconds between the blocks of the canonical branch in this history (a slow canonical
+	// branch loses total difficulty per block, so that a rival of fewer, faster blocks can out-weigh it)
+	pace int64
+	// replaced: accepted same-nonce replacement -> the transaction it replaced
+	replaced map[common.Hash]*types.Transaction
+}
+
+// dt is the time delta of the next canonical block: the history's pace, now and then another one.
+func (w *world) dt(t *rapid.T) int64 {
+	if rapid.IntRange(0, 5).Draw(t, "jitter") == 0 {
+		return rapid.SampledFrom([]int64{1, 13, 300, 3000}).Draw(t, "dt")
+	}
+	return w.pace
 }
 
 type TB interface {
@@ -101,6 +118,7 @@ func (w *world) announce(t TB, head *types.Block) {
 	for len(w.pc.stateAt) > 0 {
 		<-w.pc.stateAt
 	}
+	hadP, hadQ := w.pool.Content()
 	w.pc.feed.Send(core.ChainHeadEvent{Block: head})
 	deadline := time.After(20 * time.Second)
 	for {
@@ -109,11 +127,49 @@ func (w *world) announce(t TB, head *types.Block) {
 			if r == head.Root() {
 				w.pool.Stats() // blocks until the reset releases the pool lock
 				w.maintained, w.maintainedAccts = true, nil
+				w.classifyHeadChange(t, head, hadP, hadQ)
 				return
 			}
 		case <-deadline:
 			t.Fatalf("the pool did not react to a chain head event within 20 s")
 			return
+		}
+	}
+}
+
+// classifyHeadChange measures (labels only, no verdict) what the new head did to the transactions the
+// pool held before it: which of them the new balances / gas limit no longer cover, and whether such a
+// transaction had replaced a cheaper same-nonce one that the new head would still have covered.
+func (w *world) classifyHeadChange(t TB, head *types.Block, hadP, hadQ map[common.Address]types.Transactions) {
+	st, err := w.b.Chain.StateAt(head.Root())
+	if err != nil {
+		t.Fatalf("state of the announced head: %v", err)
+	}
+	for qi, m := range []map[common.Address]types.Transactions{hadP, hadQ} {
+		where := "pending"
+		if qi == 1 {
+			where = "queued"
+		}
+		for addr, txs := range m {
+			bal, nonce := st.GetBalance(addr), st.GetNonce(addr)
+			for _, tx := range txs {
+				if tx.Nonce() < nonce {
+					continue
+				}
+				old := w.replaced[tx.Hash()]
+				if tx.Cost().Cmp(bal) > 0 {
+					w.labels["head-change-makes-"+where+"-tx-unaffordable"] = true
+					if old != nil && old.Cost().Cmp(bal) <= 0 {
+						w.labels["balance-into-replacement-window"] = true
+					}
+				}
+				if tx.Gas() > head.GasLimit() {
+					w.labels["gas-limit-fell-under-"+where+"-tx"] = true
+					if old != nil && old.Gas() <= head.GasLimit() {
+						w.labels["gas-limit-into-replacement-window"] = true
+					}
+				}
+			}
 		}
 	}
 }
@@ -134,7 +190,7 @@ func newWorld(t TB, nc gen.NamedConfig, cfg core.TxPoolConfig) *world {
 		runtime.Gosched()
 		time.Sleep(time.Millisecond)
 	}
-	return &world{nc: nc, b: b, pc: pc, pool: pool, cfg: cfg, keys: gen.Keys[:4], locals: map[common.Address]bool{}, offered: map[common.Hash]*types.Transaction{}, labels: map[string]bool{}, maintained: true, sureLocals: map[common.Address]bool{}}
+	return &world{nc: nc, b: b, pc: pc, pool: pool, cfg: cfg, keys: gen.Keys[:4], locals: map[common.Address]bool{}, offered: map[common.Hash]*types.Transaction{}, labels: map[string]bool{}, maintained: true, sureLocals: map[common.Address]bool{}, pace: 13, replaced: map[common.Hash]*types.Transaction{}}
 }
 
 func (w *world) close() {
@@ -171,6 +227,9 @@ func (w *world) check(t TB, step string) {
 			continue
 		}
 		totalPending += len(txs)
+		if w.locals[addr] && uint64(len(txs)) > w.cfg.AccountSlots {
+			w.labels["local-exempt"] = true
+		}
 		sort.Slice(txs, func(i, j int) bool { return txs[i].Nonce() < txs[j].Nonce() })
 		nonce := st.GetNonce(addr)
 		bal := st.GetBalance(addr)
@@ -203,6 +262,9 @@ func (w *world) check(t TB, step string) {
 	}
 	for addr, txs := range queued {
 		totalQueued += len(txs)
+		if w.locals[addr] && uint64(len(txs)) > w.cfg.AccountQueue {
+			w.labels["local-exempt"] = true
+		}
 		for _, tx := range txs {
 			k := fmt.Sprintf("%x/%d", addr, tx.Nonce())
 			if o, dup := seen[k]; dup {
@@ -279,13 +341,16 @@ func (w *world) drawTx(t *rapid.T, st *state.StateDB, head *types.Block) *types.
 	nonce := uint64(rapid.IntRange(lo, int(pendNonce)+3).Draw(t, "nonce"))
 	price := big.NewInt(int64(rapid.SampledFrom([]int{1, 2, 5, 10, 11, 20, 100}).Draw(t, "price")))
 	gas := uint64(rapid.SampledFrom([]int{21000, 21000, 30000, 100000}).Draw(t, "gas"))
-	if rapid.IntRange(0, 30).Draw(t, "biggas") == 0 {
+	switch rapid.IntRange(0, 19).Draw(t, "biggas") {
+	case 0:
 		gas = head.GasLimit() + 1
+	case 1, 2:
+		gas = nearGasLimit(t, head)
 	}
 	bal := st.GetBalance(k.Addr)
 	value := big.NewInt(int64(rapid.SampledFrom([]int{0, 1, 1000}).Draw(t, "value")))
-	if k.Addr == gen.Keys[3].Addr && rapid.Bool().Draw(t, "nearbalance") {
-		// around the poor sender's balance
+	if bal.Cmp(poorBelow) < 0 && rapid.Bool().Draw(t, "nearbalance") {
+		// around a poor sender's balance (the sender that starts poor, or one that was drained)
 		value = new(big.Int).Sub(bal, new(big.Int).Mul(price, new(big.Int).SetUint64(gas)))
 		value.Add(value, big.NewInt(int64(rapid.IntRange(-2, 2).Draw(t, "off"))))
 		if value.Sign() < 0 {
@@ -294,6 +359,22 @@ func (w *world) drawTx(t *rapid.T, st *state.StateDB, head *types.Block) *types.
 	}
 	to := rapid.SampledFrom([]common.Address{gen.Keys[0].Addr, gen.Keys[5].Addr, gen.AddrStore}).Draw(t, "to")
 	return gen.SignedTx(w.nc.Config, new(big.Int).Add(head.Number(), big.NewInt(1)), k, nonce, &to, value, gas, price, nil)
+}
+
+// poorBelow: a sender holding less than this is "poor" (values are then drawn around its balance).
+var poorBelow = big.NewInt(1_000_000_000_000)
+
+// nearGasLimit draws a gas amount in the band the block gas limit moves through within the next few
+// blocks: the head's limit minus 0..3 per-block decay steps (parent limit / 1024), give or take one.
+func nearGasLimit(t *rapid.T, head *types.Block) uint64 {
+	limit := head.GasLimit()
+	step := limit / 1024
+	g := limit - uint64(rapid.IntRange(0, 3).Draw(t, "gassteps"))*step
+	g = uint64(int64(g) + int64(rapid.IntRange(-1, 1).Draw(t, "gasoff")))
+	if g < 21000 {
+		g = 21000
+	}
+	return g
 }
 
 // existing returns the pool's transaction of the given sender and nonce.
@@ -335,6 +416,12 @@ func (w *world) add(t *rapid.T, tx *types.Transaction, local bool) {
 	// evicted to make room for a replacement may hold demoted transactions above the queue
 	// limit until its next pass, while pending+queue stays within GlobalSlots+GlobalQueue
 	w.maintained, w.maintainedAccts = err == nil && !sameNonce, map[common.Address]bool{from: true}
+	if err == nil && old != nil && old.Hash() != tx.Hash() && inPool(w.pool, tx.Hash()) {
+		w.replaced[tx.Hash()] = old // (measurement only: see classifyHeadChange)
+		if tx.Cost().Cmp(old.Cost()) > 0 && tx.Gas() > old.Gas() {
+			w.labels["replacement-dearer-and-more-gas"] = true
+		}
+	}
 	// under tiny limits a full pool evicts its cheapest transactions before inserting, so a
 	// predecessor can vanish by eviction rather than replacement: judged with ample limits only
 	if old != nil && old.Hash() != tx.Hash() && w.cfg.GlobalSlots > 1000 {
@@ -393,12 +480,55 @@ func poolConfig(t *rapid.T) (core.TxPoolConfig, string) {
 }
 
 func TestPoolInvariant(t *testing.T) {
-	ev.Check(t, ev.N(130, 8000), func(t *rapid.T) {
+	ev.Check(t, ev.N(100, 5000), func(t *rapid.T) { poolHistory(t, false) })
+}
+
+// TestPoolInvariantSlowBranch is the same machine on the sub-domain in which a reorganisation can end
+// on a LOWER head and its re-injection is judged: difficulty that reacts steeply to the block time, a slow
+// canonical branch (a rival of fewer, faster blocks out-weighs five or more of its blocks), ample pool limits.
+func TestPoolInvariantSlowBranch(t *testing.T) {
+	ev.Check(t, ev.N(40, 2000), func(t *rapid.T) { poolHistory(t, true) })
+}
+
+func poolHistory(t *rapid.T, slowBranch bool) {
+	{
 		nc := gen.ConfigByName(rapid.SampledFrom([]string{"steep", "steep", "all-at-0", "nofork"}).Draw(t, "config"))
 		cfg, kind := poolConfig(t)
+		pace := rapid.SampledFrom([]int64{13, 3000}).Draw(t, "pace")
+		if slowBranch {
+			nc, pace = gen.ConfigByName("steep"), 3000
+			if kind != "default" {
+				kind = "default"
+				bump := cfg.PriceBump
+				cfg = core.DefaultTxPoolConfig
+				cfg.PriceBump = bump
+			}
+		}
 		w := newWorld(t, nc, cfg)
 		defer w.close()
 		w.labels[kind+"-limits"] = true
+		w.pace = pace
+		// the history may begin with some blocks mined before anything is submitted (with or without
+		// transactions of the senders the pool will see); the pool follows them one by one
+		prelude := rapid.SampledFrom([]int{0, 0, 0, 1, 3, 6}).Draw(t, "prelude")
+		depths := []int{1, 1, 2, 2, 3, 3, 4, 5, 6, 7, 8}
+		if slowBranch {
+			prelude = rapid.IntRange(5, 8).Draw(t, "slowprelude")
+			depths = []int{1, 2, 3, 5, 5, 6, 6, 7, 7, 8}
+		}
+		for i := 0; i < prelude; i++ {
+			head, st := w.headState(t)
+			var txs []*types.Transaction
+			if rapid.Bool().Draw(t, "preludetx") {
+				k := rapid.SampledFrom(w.keys).Draw(t, "preludesender")
+				to := gen.Keys[5].Addr
+				txs = append(txs, gen.SignedTx(w.nc.Config, new(big.Int).Add(head.Number(), big.NewInt(1)), k, st.GetNonce(k.Addr), &to, big.NewInt(1), 21000, big.NewInt(1), nil))
+			}
+			w.announce(t, w.mine(t, head, txs, w.dt(t)))
+		}
+		if prelude > 0 {
+			w.actions = append(w.actions, fmt.Sprintf("prelude(%d blocks)", prelude))
+		}
 		w.check(t, "initially")
 		t.Repeat(map[string]func(*rapid.T){
 			"add": func(t *rapid.T) {
@@ -450,7 +580,7 @@ func TestPoolInvariant(t *testing.T) {
 				old := all[rapid.IntRange(0, len(all)-1).Draw(t, "which")]
 				from := w.sender(old)
 				var k gen.Key
-				for _, x := range w.keys {
+				for _, x := range gen.Keys {
 					if x.Addr == from {
 						k = x
 					}
@@ -461,9 +591,30 @@ func TestPoolInvariant(t *testing.T) {
 				if price.Sign() <= 0 {
 					price = big.NewInt(1)
 				}
-				head, _ := w.headState(t)
+				head, st := w.headState(t)
+				// the replacement may ask for more gas and carry more value than what it replaces:
+				// the same gas, somewhat more, or an amount in the band the block gas limit moves through
+				gas := old.Gas()
+				switch rapid.IntRange(0, 5).Draw(t, "moregas") {
+				case 0:
+					gas += uint64(rapid.SampledFrom([]int{1, 9000, 79000}).Draw(t, "gasplus"))
+				case 1, 2:
+					gas = nearGasLimit(t, head)
+				}
+				// value: a token amount, more than before, or what makes the cost meet the sender's balance
+				value := big.NewInt(7)
+				switch rapid.IntRange(0, 5).Draw(t, "morevalue") {
+				case 0:
+					value = new(big.Int).Add(old.Value(), big.NewInt(int64(rapid.SampledFrom([]int{1, 1000, 400000}).Draw(t, "valueplus"))))
+				case 1:
+					v := new(big.Int).Sub(st.GetBalance(from), new(big.Int).Mul(price, new(big.Int).SetUint64(gas)))
+					v.Sub(v, big.NewInt(int64(rapid.IntRange(-1, 2).Draw(t, "short"))))
+					if v.Sign() > 0 {
+						value = v
+					}
+				}
 				to := gen.Keys[5].Addr
-				tx := gen.SignedTx(w.nc.Config, new(big.Int).Add(head.Number(), big.NewInt(1)), k, old.Nonce(), &to, big.NewInt(7), old.Gas(), price, nil)
+				tx := gen.SignedTx(w.nc.Config, new(big.Int).Add(head.Number(), big.NewInt(1)), k, old.Nonce(), &to, value, gas, price, nil)
 				w.add(t, tx, false)
 			},
 			"setGasPrice": func(t *rapid.T) {
@@ -476,7 +627,7 @@ func TestPoolInvariant(t *testing.T) {
 				pending, _ := w.pool.Pending()
 				sub := prefixSubset(t, pending)
 				head := w.b.Chain.CurrentBlock()
-				blk := w.mine(t, head, sub, 13)
+				blk := w.mine(t, head, sub, w.dt(t))
 				if w.b.Chain.CurrentBlock().Hash() != blk.Hash() {
 					t.Fatalf("mined block did not become the head")
 				}
@@ -488,15 +639,51 @@ func TestPoolInvariant(t *testing.T) {
 				}
 			},
 			"drain": func(t *rapid.T) {
-				// a directly mined transfer that moves almost all of the poor sender's balance away
+				// a spend made elsewhere (a directly mined transfer) that leaves a sender - the poor one or any
+				// other - with next to nothing, or with a balance at the edge of what one of its pooled
+				// transactions costs (exactly the cost, or one wei short of it)
 				head, st := w.headState(t)
+				had, hadQ := w.pool.Content()
 				k := gen.Keys[3]
+				if rapid.Bool().Draw(t, "anyvictim") {
+					k = rapid.SampledFrom(w.keys).Draw(t, "victim")
+					// mostly a sender that has something in the pool
+					var busy []gen.Key
+					for _, x := range w.keys {
+						if len(had[x.Addr])+len(hadQ[x.Addr]) > 0 {
+							busy = append(busy, x)
+						}
+					}
+					if len(busy) > 0 && rapid.IntRange(0, 3).Draw(t, "busyvictim") != 0 {
+						k = rapid.SampledFrom(busy).Draw(t, "victim2")
+					}
+				}
 				bal := st.GetBalance(k.Addr)
 				fee := big.NewInt(21000)
 				if bal.Cmp(new(big.Int).Mul(fee, big.NewInt(3))) < 0 {
 					t.Skip("already drained")
 				}
-				keep := big.NewInt(int64(rapid.SampledFrom([]int{0, 21000, 50000}).Draw(t, "keep")))
+				keeps := []*big.Int{big.NewInt(0), big.NewInt(21000), big.NewInt(50000)}
+				// edges: the costs of the sender's pooled transactions that outlive the spend's nonce; the
+				// dearest of them is singled out half of the time (the spend then invalidates exactly that one)
+				var edges []*big.Int
+				var dearest *big.Int
+				for _, tx := range append(append(types.Transactions{}, had[k.Addr]...), hadQ[k.Addr]...) {
+					if tx.Nonce() <= st.GetNonce(k.Addr) {
+						continue
+					}
+					edges = append(edges, new(big.Int).Sub(tx.Cost(), big.NewInt(1)), tx.Cost())
+					if dearest == nil || tx.Cost().Cmp(dearest) > 0 {
+						dearest = tx.Cost()
+					}
+				}
+				if len(edges) > 0 && rapid.IntRange(0, 3).Draw(t, "edge") != 0 {
+					keeps = edges
+					if rapid.Bool().Draw(t, "dearest") {
+						keeps = []*big.Int{new(big.Int).Sub(dearest, big.NewInt(1)), dearest}
+					}
+				}
+				keep := keeps[rapid.IntRange(0, len(keeps)-1).Draw(t, "keep")]
 				value := new(big.Int).Sub(bal, fee)
 				value.Sub(value, keep)
 				if value.Sign() <= 0 {
@@ -504,14 +691,13 @@ func TestPoolInvariant(t *testing.T) {
 				}
 				to := gen.Keys[5].Addr
 				tx := gen.SignedTx(w.nc.Config, new(big.Int).Add(head.Number(), big.NewInt(1)), k, st.GetNonce(k.Addr), &to, value, 21000, big.NewInt(1), nil)
-				had, _ := w.pool.Content()
-				blk := w.mine(t, head, []*types.Transaction{tx}, 13)
+				blk := w.mine(t, head, []*types.Transaction{tx}, w.dt(t))
 				w.announce(t, blk) // (the block is the new head whether or not the transaction fitted)
 				if len(blk.Transactions()) != 1 {
 					w.actions = append(w.actions, "drain(did not fit)")
 					return
 				}
-				w.actions = append(w.actions, "drain")
+				w.actions = append(w.actions, fmt.Sprintf("drain(%x, keeps %v)", k.Addr[:2], keep))
 				w.gapEvt = true
 				if len(had[k.Addr]) > 0 {
 					w.labels["demoted-after-balance-drop"] = true
@@ -529,7 +715,7 @@ func TestPoolInvariant(t *testing.T) {
 					txs = append(txs, gen.SignedTx(w.nc.Config, new(big.Int).Add(head.Number(), big.NewInt(1)), k, st.GetNonce(k.Addr)+uint64(i), &to, big.NewInt(1), 21000, big.NewInt(1), nil))
 				}
 				hadP, hadQ := w.pool.Content()
-				blk := w.mine(t, head, txs, 13)
+				blk := w.mine(t, head, txs, w.dt(t))
 				w.announce(t, blk) // (the block is the new head whether or not the transactions fitted)
 				w.actions = append(w.actions, fmt.Sprintf("external(%x,%d)", k.Addr[:2], len(blk.Transactions())))
 				if len(blk.Transactions()) == 0 {
@@ -583,7 +769,7 @@ func TestPoolInvariant(t *testing.T) {
 				if len(txs) == 0 {
 					t.Skip("no offered transaction is executable")
 				}
-				blk := w.mine(t, head, txs, 13)
+				blk := w.mine(t, head, txs, w.dt(t))
 				w.announce(t, blk) // (the block is the new head whatever fitted)
 				w.actions = append(w.actions, fmt.Sprintf("mineOffered(%d of %d, %d not pooled)", len(blk.Transactions()), len(txs), unpooled))
 				if len(blk.Transactions()) > 0 {
@@ -595,12 +781,15 @@ func TestPoolInvariant(t *testing.T) {
 				}
 			},
 			"reorg": func(t *rapid.T) {
-				// replace the last d blocks by a heavier sibling branch with a different subset of their transactions
+				// replace the last d blocks by a heavier sibling branch with a different subset of their
+				// transactions. The sibling is made of fast blocks and is as long as it takes to out-weigh the
+				// old branch, plus 0..2 blocks: on a slow old branch that is FEWER blocks than it replaces (the
+				// new head has a lower number than the old one), otherwise as many or more
 				head := w.b.Chain.CurrentBlock()
 				if head.NumberU64() < 1 {
 					t.Skip("nothing to reorganise")
 				}
-				d := uint64(rapid.IntRange(1, 3).Draw(t, "depth"))
+				d := uint64(rapid.SampledFrom(depths).Draw(t, "depth"))
 				if d > head.NumberU64() {
 					d = head.NumberU64()
 				}
@@ -617,8 +806,14 @@ func TestPoolInvariant(t *testing.T) {
 				})
 				parent := fork
 				included := map[common.Hash]bool{}
-				// d+1 fast blocks out-weigh d slower ones on every schedule used here
-				for i := uint64(0); i <= d; i++ {
+				// (strictly heavier: at equal total difficulty and equal height the chain tosses a coin)
+				oldTd := w.b.Chain.GetTd(head.Hash(), head.NumberU64())
+				extra := rapid.SampledFrom([]int{0, 0, 0, 1, 2}).Draw(t, "extra")
+				length, heavier := uint64(0), false
+				for i := uint64(0); i <= d+2 && (!heavier || extra > 0); i++ {
+					if heavier {
+						extra--
+					}
 					var sub []*types.Transaction
 					if i == 0 {
 						for _, tx := range dropped {
@@ -632,15 +827,28 @@ func TestPoolInvariant(t *testing.T) {
 						included[tx.Hash()] = true
 					}
 					parent = blk
+					length++
+					heavier = w.b.Chain.GetTd(blk.Hash(), blk.NumberU64()).Cmp(oldTd) > 0
 				}
-				if w.b.Chain.CurrentBlock().Hash() != parent.Hash() {
+				if !heavier || w.b.Chain.CurrentBlock().Hash() != parent.Hash() {
+					// (not reachable with fast sibling blocks; should a coin toss have moved the head, tell the pool)
+					if cur := w.b.Chain.CurrentBlock(); cur.Hash() != head.Hash() {
+						w.announce(t, cur)
+					}
 					t.Skip("the sibling branch did not become the head")
 				}
 				poolFullBefore := w.saturated()
 				w.announce(t, parent)
-				w.actions = append(w.actions, fmt.Sprintf("reorg(depth %d, %d dropped, %d re-included)", d, len(dropped), len(included)))
+				w.actions = append(w.actions, fmt.Sprintf("reorg(%d blocks replaced by %d, %d dropped, %d re-included)", d, length, len(dropped), len(included)))
 				w.labels["reorg"] = true
 				w.gapEvt = true
+				shape := "reorg-to-higher-head"
+				if length < d {
+					shape = "reorg-to-lower-head"
+				} else if length == d {
+					shape = "reorg-to-equal-height"
+				}
+				w.labels[shape] = true
 				// re-injection of what dropped out and is still valid
 				_, st := w.headState(t)
 				for _, tx := range dropped {
@@ -662,6 +870,7 @@ func TestPoolInvariant(t *testing.T) {
 						t.Fatalf("transaction %x (sender %x nonce %d) dropped out of the canonical chain by a reorganisation, is still valid at the new head, and was not pooled again (re-offering it now: %v)\nhistory:\n  %s", tx.Hash().Bytes()[:4], from[:4], tx.Nonce(), w.pool.AddRemote(tx), strings.Join(w.actions, "\n  "))
 					}
 					w.labels["reorg-reinjection-checked"] = true
+					w.labels["reinjection-checked-after-"+shape] = true
 				}
 			},
 			"": func(t *rapid.T) {
@@ -697,8 +906,8 @@ func TestPoolInvariant(t *testing.T) {
 			lb = append(lb, k)
 		}
 		ev.Case(w.gapEvt, []byte(strings.Join(w.actions, ";")), append(lb, "config:"+nc.Name)...)
-		ev.Sample(map[string]interface{}{"config": nc.Name, "limits": kind, "bump": cfg.PriceBump, "actions": w.actions})
-	})
+		ev.Sample(map[string]interface{}{"config": nc.Name, "limits": kind, "bump": cfg.PriceBump, "pace": w.pace, "actions": w.actions})
+	}
 }
 
 func (w *world) saturated() bool {
